@@ -77,7 +77,11 @@ Definition save_fmt (fmt : N) (compress with_sauce : bool) (p : pic) : res (list
   | 0%N => if with_sauce then (let* _ := bin_sauce p in Ok (save_bin p)) else Ok (save_bin p)
   | 1%N => save_adf p
   | 2%N => if compress then Err 98 else save_xb p
-  | 3%N => save_idf compress p
+  | 3%N => (* the IDF writer appends a SAUCE record of type Bin: width / 2 must fit a byte *)
+           match save_idf compress p with
+           | Ok d => if with_sauce then (let* _ := bin_sauce p in Ok d) else Ok d
+           | r => r
+           end
   | _ => save_tnd p
   end.
 
